@@ -107,6 +107,8 @@ func checkC16(p *core.Program, r *core.Report) {
 	r.Count("variable_index_sites", varIndexRule(p, r, fns, "R11", c16VarIndexAllowed))
 	r.Rule("R6", "in the generic-JSON migrations, every write into a map that comes from a discarded-ok assertion on decoded JSON (directly or through an accessor such as GetLanguageTranslation) is controlled by a nil / ok test")
 	c16R6(p, r, fns)
+	r.Rule("R13", "null elements are rejected at load: every JSON member of a definition struct (flow, node, action, router, case, wait types) that is a slice or map of pointers to structs carries `dive,required` in its validate tag — the repository's idiom (nodes, exits) for turning `[null]` into a validation error — since the code that later ranges over the slice dereferences each element")
+	c16R13(p, r)
 	r.Rule("R12", "a truncation is decided by the value it cuts: where a call that truncates X to N characters (stringsx.Truncate, directly or through a local helper) is controlled by a length comparison, a comparison against N measures X itself, and a comparison of len(X) uses a bound of at most N")
 	c16R12(p, r, fns)
 	// R5
@@ -1127,4 +1129,71 @@ func c16R12(p *core.Program, r *core.Report, fns []*ssa.Function) {
 		}
 	}
 	r.Require("truncation_sites", n, 4)
+}
+
+// ---------------------------------------------------------------------------------------------- R13
+
+var c16DefinitionStructPkgs = []string{"flows/definition", "flows/actions", "flows/routers", "flows/routers/cases", "flows/routers/waits", "flows/routers/waits/hints"}
+
+func c16R13(p *core.Program, r *core.Report) {
+	n := 0
+	for _, rel := range c16DefinitionStructPkgs {
+		pk := p.Pkg(rel)
+		if pk == nil {
+			continue
+		}
+		scope := pk.Types.Scope()
+		names := scope.Names()
+		sort.Strings(names)
+		for _, nm := range names {
+			tn, ok := scope.Lookup(nm).(*types.TypeName)
+			if !ok || p.IsTestFile(tn.Pos()) {
+				continue
+			}
+			st, ok := tn.Type().Underlying().(*types.Struct)
+			if !ok {
+				continue
+			}
+			for i := 0; i < st.NumFields(); i++ {
+				f := st.Field(i)
+				tag := reflect.StructTag(st.Tag(i))
+				js, hasJSON := tag.Lookup("json")
+				if !hasJSON || js == "-" {
+					continue
+				}
+				var elem types.Type
+				switch t := f.Type().Underlying().(type) {
+				case *types.Slice:
+					elem = t.Elem()
+				case *types.Map:
+					elem = t.Elem()
+				}
+				if elem == nil {
+					continue
+				}
+				pt, ok := elem.Underlying().(*types.Pointer)
+				if !ok {
+					continue
+				}
+				if _, isStruct := pt.Elem().Underlying().(*types.Struct); !isStruct {
+					continue
+				}
+				n++
+				parts := strings.Split(tag.Get("validate"), ",")
+				ok = false
+				for k, pa := range parts {
+					if pa == "dive" {
+						for _, after := range parts[k+1:] {
+							if after == "required" {
+								ok = true
+							}
+						}
+					}
+				}
+				r.Check(ok, "R13", rel+"."+nm+"."+f.Name()+"/null-elements-rejected", p.Pos(f.Pos()), "validate:\""+tag.Get("validate")+"\"",
+					fmt.Sprintf("member %q of %s.%s is decoded into %s without `dive,required`: a definition with a null element loads, and the code that ranges over it dereferences the nil pointer (panic while validating the flow or while running it)", strings.Split(js, ",")[0], rel, nm, core.ShortType(f.Type())))
+			}
+		}
+	}
+	r.Require("pointer_collection_members", n, 7)
 }
